@@ -49,6 +49,7 @@ pub fn set_run(run_key: u64) {
 
 #[inline]
 pub fn enter(call: u64) {
+    crate::alloc::reset_gross();
     GUARDED.with(|g| g.set(true));
     let w = WORKER.with(|w| w.get());
     if w < MAX_WORKERS {
@@ -64,6 +65,10 @@ pub fn leave() {
     if w < MAX_WORKERS {
         SLOTS[w].since_ms.store(0, Ordering::Release);
     }
+}
+
+pub fn in_guarded_call_try() -> bool {
+    GUARDED.try_with(|g| g.get()).unwrap_or(false)
 }
 
 pub fn in_guarded_call() -> bool {
